@@ -1108,3 +1108,64 @@ func (c *Ctx) hashIndexCounter() {
 type posHolder struct{ p token.Pos }
 
 func (h posHolder) Pos() token.Pos { return h.p }
+
+// signedRangeByBitLen: (*big.Int).BitLen() is the length of the ABSOLUTE value. A writer of signed n-bit integers
+// that refuses a value because val.BitLen() is too large refuses -2^(n-1), the most negative value of the width
+// (BitLen n), although it fits; only for val >= 0 is "BitLen() <= n-1" the right test. Rule: in the signed
+// big-integer writer a rejecting test on BitLen() of the value parameter itself stands where the value's sign is
+// known (a fact on val.Sign() / val.Cmp). No instance on the pinned tree: WriteBigInt splits on the sign and
+// delegates the range check to the unsigned writer.
+func (c *Ctx) signedRangeByBitLen() {
+	const R = "E8.capacity"
+	for _, name := range []string{"BitString.WriteBigInt"} {
+		f := c.fn("boc", name)
+		if f == nil {
+			continue
+		}
+		n := 0
+		for _, g := range c.deepFns(f) {
+			if g != f && !strings.Contains(g.Name(), "Int") && !strings.Contains(g.Name(), "int") {
+				// helpers shared with the unsigned writer check unsigned values
+				if len(gCallSites[g]) > 1 {
+					continue
+				}
+			}
+			for _, b := range g.Blocks {
+				iff := lastIf(b)
+				if iff == nil || !rejects(g, b) {
+					continue
+				}
+				viaBitLen := false
+				var val ssa.Value
+				derivesFrom(iff.Cond, func(x ssa.Value) bool {
+					cl := callOf(x)
+					if cl != nil && callQName(&cl.Call) == "math/big.Int.BitLen" {
+						if _, isPrm := cl.Call.Args[0].(*ssa.Parameter); isPrm {
+							viaBitLen, val = true, cl.Call.Args[0]
+						}
+					}
+					return false
+				}, false)
+				if !viaBitLen {
+					continue
+				}
+				n++
+				signKnown := false
+				for _, ft := range factsAt(g, b) {
+					if derivesFrom(ft.Cond, func(x ssa.Value) bool {
+						cl := callOf(x)
+						if cl == nil || len(cl.Call.Args) == 0 || cl.Call.Args[0] != val {
+							return false
+						}
+						q := callQName(&cl.Call)
+						return q == "math/big.Int.Sign" || q == "math/big.Int.Cmp"
+					}, false) {
+						signKnown = true
+					}
+				}
+				c.check(signKnown, R, name+": a range test by BitLen() knows the sign", iff.Pos(), "BitLen() compared where Sign() of the same value was tested", name+" rejects a value by (*big.Int).BitLen() without knowing its sign: BitLen is the length of the absolute value, so the most negative value of every width, -2^(n-1), is refused although it fits (WriteBigInt(-1, 1), Int257 = -2^256)")
+			}
+		}
+		c.ok(R, name+": range tests by BitLen()", f.Pos(), fmt.Sprintf("%d rejecting BitLen() test(s) on the value in the signed writer, each sign-aware", n))
+	}
+}
